@@ -143,6 +143,12 @@ func latchDiscipline(c *Ctx, rule string, scope []*ssa.Function, latches map[*ty
 				if fv == nil || !latches[fv] {
 					continue
 				}
+				if isNilConst(st.Val) && onlyOnFreshObjects(p, fn, st) {
+					// initialisation of an object that was allocated by the caller just for this call (a constructor's
+					// "init" half): there is no earlier failure to forget
+					c.OK(rule, "latch-init "+fv.Name()+" in "+FuncName(fn), p.Pos(st.Pos()), "nil stored into the latch of a freshly allocated object at every call site")
+					continue
+				}
 				if isNilConst(st.Val) {
 					c.Bad(rule, "latch-reset "+fv.Name()+" in "+FuncName(fn), p.Pos(st.Pos()), "error latch is reset to nil: an earlier failure would be forgotten")
 					continue
@@ -841,4 +847,74 @@ func writeFileSim(p *Program, writeFile, writeTo *ssa.Function) (bool, string) {
 		return false, fmt.Sprintf("WriteTo is not reached on both outcomes (failed=%d ok=%d)", nFail, nOK)
 	}
 	return true, ""
+}
+
+// onlyOnFreshObjects: the store goes through the function's receiver / first parameter, and at every static call site of
+// the function in the module that argument is an object allocated in the calling function (new / &T{}) that has not been
+// handed to anything else before the call.
+func onlyOnFreshObjects(p *Program, fn *ssa.Function, st *ssa.Store) bool {
+	if len(fn.Params) == 0 {
+		return false
+	}
+	base := st.Addr
+	for i := 0; i < 6; i++ {
+		if fa, ok := base.(*ssa.FieldAddr); ok {
+			base = fa.X
+			continue
+		}
+		break
+	}
+	if base != ssa.Value(fn.Params[0]) {
+		return false
+	}
+	sites := 0
+	for caller := range p.All {
+		if !InModule(caller) {
+			continue
+		}
+		for _, call := range calls(caller) {
+			cc := call.Common()
+			if cc.StaticCallee() != fn {
+				// the function used as a value (method value, interface dispatch) cannot be followed
+				for _, a := range cc.Args {
+					if a == ssa.Value(fn) {
+						return false
+					}
+				}
+				continue
+			}
+			sites++
+			if len(cc.Args) == 0 {
+				return false
+			}
+			al, ok := cc.Args[0].(*ssa.Alloc)
+			if !ok || al.Parent() != caller {
+				return false
+			}
+			ci := call.(ssa.Instruction)
+			// before the call the fresh object is used for nothing but field initialisation
+			for _, r := range *al.Referrers() {
+				if r == ci {
+					continue
+				}
+				switch x := r.(type) {
+				case *ssa.FieldAddr, *ssa.DebugRef:
+				case *ssa.Store:
+					if x.Addr != ssa.Value(al) {
+						if r.Block() == ci.Block() && instrIndex(r) < instrIndex(ci) || r.Block() != ci.Block() && instrDominates(r, ci) {
+							return false // escaped before the call
+						}
+					}
+				default:
+					if ri, ok := r.(ssa.Instruction); ok && (ri.Block() == ci.Block() && instrIndex(ri) < instrIndex(ci) || ri.Block() != ci.Block() && instrDominates(ri, ci)) {
+						return false
+					}
+				}
+			}
+		}
+	}
+	if fn.Referrers() != nil && len(*fn.Referrers()) > sites {
+		// referenced somewhere other than as a static callee
+	}
+	return sites > 0
 }
